@@ -13,11 +13,14 @@ pub struct ArrayMetadataOptions {
 
 impl Default for ArrayMetadataOptions {
     fn default() -> Self {
+        let codec_options = CodecMetadataOptions::default();
+        // Acquire the global config once (see `CodecOptions::default`)
+        let config = global_config();
         Self {
-            codec_options: CodecMetadataOptions::default(),
-            convert_version: global_config().metadata_convert_version(),
-            include_zarrs_metadata: global_config().include_zarrs_metadata(),
-            convert_aliased_extension_names: global_config().convert_aliased_extension_names(),
+            codec_options,
+            convert_version: config.metadata_convert_version(),
+            include_zarrs_metadata: config.include_zarrs_metadata(),
+            convert_aliased_extension_names: config.convert_aliased_extension_names(),
         }
     }
 }
